@@ -16,21 +16,31 @@ Fitting(d)   == SelectSeq(KindSeq, LAMBDA k : d.cur <= MaxCur(k))
 KindsFor(d)  == IF AllKinds THEN {k \in OnlyKinds : d.cur <= MaxCur(k)}
                 ELSE {Fitting(d)[(Hash(d) % Len(Fitting(d))) + 1]}
 Render(d, kind) == LET h == Hash(d) + Len(kind) IN
-  [kind |-> kind, skew |-> (h \div 2) % 2, style |-> (h \div 4) % 2,
-   prefix |-> IF (h \div 8) % 3 = 0 THEN "/mirror/planet" ELSE ""]
+  UniformTime(kind, (h \div 2) % 2) @@
+  [style |-> (h \div 4) % 2, prefix |-> IF (h \div 8) % 3 = 0 THEN "/mirror/planet" ELSE ""]
+\* pause family: states two seconds apart, a pause of about ten years (32-bit seconds leave room for two)
+PauseRender(d, kind, pauses) == [Render(d, kind) EXCEPT !.skew = 0, !.unit = 1, !.pauses = pauses, !.pauselen = 300000000]
 
 \* query times: all of them for small directories, SelectedQueries for long ones (FullQueries is small here)
 QueriesFor(d) == QueriesOf(d, FullQueries)
 
-QueryRec(r, q) == [q |-> q, sec |-> Sec(r.kind, r.skew, q), nsec |-> Nsec(r.kind, q)]
-GenRec(d, kind) == LET r == Render(d, kind)   c == CaseOf(d, 0, NoDevs) IN
+QueryRec(r, q, side) == [q |-> q, sec |-> QSec(r, q, side), nsec |-> Nsec(r.kind, q)]
+Sides(r, q) == IF \E p \in r.pauses : 2 * p + 1 = q THEN {0, 1} ELSE {0}     \* inside a pause: just after p, just before p+1
+GenRecWith(d, r, qs) == LET c == CaseOf(d, 0, NoDevs) IN
   [kind |-> r.kind, skew |-> r.skew, style |-> r.style, prefix |-> r.prefix,
+   unit |-> r.unit, pauses |-> SetToSeq(r.pauses), pauselen |-> r.pauselen,
    present |-> SetToSeq(d.present), first |-> d.first, cur |-> d.cur,
    bound |-> c.bound, cap |-> Cap(c),
    current |-> CurrentFile(r, c),
    files |-> [i \in 1 .. Cardinality(d.present) |-> FileOf(r, SetToSeq(d.present)[i])],
-   queries |-> SetToSeq({QueryRec(r, q) : q \in QueriesFor(d)})]
+   queries |-> SetToSeq(UNION {{QueryRec(r, q, side) : side \in Sides(r, q)} : q \in qs})]
+GenRec(d, kind) == GenRecWith(d, Render(d, kind), QueriesFor(d))
+PauseRec(pl, kind) == GenRecWith(pl.d, PauseRender(pl.d, kind, pl.pauses), pl.qs)
+\* one kind per plan when kinds are rotated: the pause places of one size then cover several kinds
+PauseKinds(pl) == IF AllKinds THEN KindsFor(pl.d)
+                  ELSE {Fitting(pl.d)[((Hash(pl.d) + SetMax(pl.pauses) + Cardinality(pl.pauses)) % Len(Fitting(pl.d))) + 1]}
 GenRecs == UNION {{GenRec(d, kind) : kind \in KindsFor(d)} : d \in MCDirs}
+             \cup UNION {{PauseRec(pl, kind) : kind \in PauseKinds(pl)} : pl \in PausePlans(PauseSizes)}
 ASSUME ndJsonSerialize(IOEnv.OUT, SetToSeq(GenRecs))
 GInit == cs = 0 /\ st = 0
 GNext == UNCHANGED vars
